@@ -27,6 +27,7 @@ Worker-side run (chanworker): the spec is a FIFO of unanswered request ids.
   wstart <buffer> <max> <sndbuf>           -> started
   wreq <seq> <idlen>                       -> sent      (not expected to be answered when idlen + 32 > ceiling)
   wread <k>                                -> got <seq,seq,..|->    (the next k outstanding, in request order)
+  wsoft <seq>                              -> sent      (SoftStop; its final answer comes after all earlier answers, then the worker exits)
   wpause <ms>                              -> paused    (the main process does nothing for a while)
   wstop                                    -> alive left=<n>
 
@@ -76,6 +77,7 @@ structure DState where
   wq : List Nat := []             -- worker-side spec: requests not answered yet
   wmax : Nat := 0                 -- worker-side run: the channel's ceiling
   buf : Buffer := Buffer.withCapacity 0   -- direct Buffer run
+  wsoft : Bool := false           -- worker-side run: a SoftStop was sent (the worker then exits)
 
 def DState.decodes (d : DState) (p : Bytes) : Bool := d.table.any fun e => e.1 == p
 
@@ -138,7 +140,7 @@ def stepLine (d : DState) (line : String) : DState × List String :=
     | none => (d, ["bad-op"])
   | ["wstart", b, m, _] =>
     match b.toNat?, m.toNat? with
-    | some b, some m => ({ d with wq := [], wmax := Nat.max b m }, ["started"])
+    | some b, some m => ({ d with wq := [], wmax := Nat.max b m, wsoft := false }, ["started"])
     | _, _ => (d, ["bad-op"])
   | ["wreq", i, len] =>
     match i.toNat?, len.toNat? with
@@ -153,8 +155,13 @@ def stepLine (d : DState) (line : String) : DState × List String :=
       let (q, o) := wstep d.wq (.read k)
       ({ d with wq := q }, ["got " ++ (if o.isEmpty then "-" else ",".intercalate (o.map toString))])
     | none => (d, ["bad-op"])
+  | ["wsoft", i] =>
+    -- SoftStop with no session open: answered (finally) after everything asked before it
+    match i.toNat? with
+    | some i => ({ d with wq := (wstep d.wq (.req i)).1, wsoft := true }, ["sent"])
+    | none => (d, ["bad-op"])
   | ["wpause", _] => (d, ["paused"])
-  | ["wstop"] => (d, ["alive left=" ++ toString d.wq.length])
+  | ["wstop"] => (d, [(if d.wsoft then "stopped left=" else "alive left=") ++ toString d.wq.length])
   | ["buf", c] =>
     match c.toNat? with
     | some c => bufLine { d with buf := Buffer.withCapacity c } 0
